@@ -181,7 +181,7 @@ def check(spec, tier, seed, replay=None):
         return 1 if "FAIL" in out else 0
 
     C.log("[%s] proof status" % pid)
-    ps = C.proof_status(pid)
+    ps = C.proof_status(pid, coqchk=(tier == "thorough"))
     for p in ps["problems"]:
         broken.append("proof: " + p)
     ok, out = C.build_coq()
@@ -275,6 +275,7 @@ def check(spec, tier, seed, replay=None):
             "obligations": ps["obligations"], "discharged": ps["discharged"],
             "checker_cmd": "cd /verif/coq && make Props/%s.vo && coqc -Q . RV Props/%s.v  (Print Assumptions under every theorem; forbidden-vernacular scan)" % (pid, pid),
             "theorems": [{"name": n, "assumptions": a} for n, a in ps["theorems"]],
+            "coqchk_context_summary": ps.get("coqchk", "not run in this tier (thorough tier runs coqchk -o on the Props module)"),
             "trusted_base": spec["trusted_base"],
             "evaluations": summ["cases"], "distinct_nontrivial": summ["classes"],
             "rule": "every RawNode API call of seeded simulated cluster runs (1-5 voters, 0-2 learners, random knobs; ticks, deliveries with duplication/loss/reordering, proposals, conf changes, reads, transfers, sync/async Ready rounds, compaction, crash/restart) is one case: the model is started from the implementation's own pre-state dump and must reproduce the result and the post-state; distinct_nontrivial = distinct (call kind, role, message type) classes compared; a disagreement counts for this property only if it touches its projection " + str(sorted(spec["projection"])),
